@@ -2,17 +2,17 @@ INIT RInit
 NEXT RNext
 CONSTANTS
   Ecus = {"A"}
-  MaxMsgs = 5
-  RxDeltas = {0, 1, 11}
+  MaxMsgs = 4
+  RxDeltas = {0, 11, 61}
   TsVals = {0, 70}
   Kinds = {"norm"}
   IdxDeltas = {1}
   FixMerged = TRUE
   Scheds = {0}
   FreePolls = TRUE
-  PartialRecv = FALSE
+  PartialRecv = TRUE
   EacTimer = FALSE
   FixWithdraw = FALSE
 VIEW RView
-INVARIANTS KfWitness NoMissingNoStale ExtraOnlyRemoved FileInfoOk EacOk CountsOk TableMirror
+INVARIANTS NoMissingNoStale ExtraOnlyRemoved FileInfoOk EacOk CountsOk TableMirror
 CHECK_DEADLOCK FALSE
